@@ -172,9 +172,10 @@ func (n *DHTNode) String() string {
 
 // HandlePut handles a put from another node.
 func (node *DHTNode) HandlePut(from p2p.PeerID, req PutReq) (PutRes, error) {
-	ttl := time.Duration(req.TTLms) * time.Millisecond
-	if ttl > node.params.MaxDataTTL {
-		ttl = node.params.MaxDataTTL
+	// compare before converting: a large TTLms overflows time.Duration (to a time in the past)
+	ttl := node.params.MaxDataTTL
+	if req.TTLms < uint64(ttl/time.Millisecond) {
+		ttl = time.Duration(req.TTLms) * time.Millisecond
 	}
 	createdAt := node.params.Now()
 	expiresAt := createdAt.Add(ttl)
